@@ -429,3 +429,7 @@ impl AnnotationDelta {
         self.n_terms
     }
 }
+
+#[cfg(kani)]
+#[path = "/verif/kani/comparison.rs"]
+mod verif_kani;
